@@ -1,5 +1,5 @@
 """C14 — nested commands run inner-first, left to right, exactly once, in one plugin."""
-import inspect, os, re, sys, threading
+import inspect, os, re, sys, threading, time
 import boot
 from lib import wire
 
@@ -48,7 +48,17 @@ LEVEL_TEXT = ('Coq theorems over an executable Gallina model of NestedCommandsIr
               'The model is tied to the source by regenerated constants/shape checks and a differential run against a live bot on every check.')
 LEVEL_NOTE = ('Trusted: Coq kernel, gen_tables.py/t14.py, extraction + OCaml driver, the Python harness (synthetic plugin generator, canonicaliser); '
               'command behaviours are an arbitrary function in the theorems and a small DSL in the correspondence; Python thread interleaving beyond '
-              '"the reply arrives later on another stack" and the exact frame count at which RecursionError strikes are oracles.')
+              '"the reply arrives later on another stack" and the exact frame count at which RecursionError strikes are oracles.  '
+              'NOT modelled (looked at by the direct oracle or by probes only): commands that reply more than once (finding C14.F25) or both tag '
+              'and reply in other orders; proxies built on a proxy by plugins (Utilities.apply, Conditional.cif, Aka/Alias, Scheduler, MessageParser: '
+              'probed, behave like ordinary sub-commands, nesting levels add up); plugins that override getCommand/isCommandMethod or answer '
+              'invalidCommand (Aka, Factoids, ...): an invalid command always stops the evaluation here; the capability checks of _callCommand '
+              '(the sender is one unregistered user with default capabilities); channel traffic and per-channel settings (brackets, pipeSyntax, '
+              'reply.*), one network, private queries only; prefixNick; debug.threadAllCommands / CommandProcess; reply.maximumLength truncation and '
+              'non-string replies; registry children are matched case-insensitively (finding C14.F27).  Not proved, only checked differentially: '
+              'that a restart preserves the disabled answers after an arbitrary disable/enable history (proved: the start-up table lists exactly the '
+              'registry entries, and each entry Owner.disable writes reads back as the same canonical command/plugin for names without special characters), '
+              'the registry list and success flags of Owner.disable/enable, the values of the sticky reply attributes.')
 TECHNIQUE = 'Coq proof (refinement of a frame-stack machine to a recursive evaluator, strong induction on the number of sub-commands) + regenerated tables + extracted-model differential correspondence on a live bot'
 EXPLANATION = 'C14: evaluation machine and dispatch model of src/callbacks.py; theorems in coq/C14/Props.v'
 
@@ -113,7 +123,7 @@ def bot():
     irc = irclib.Irc('test')
     while irc.takeMsg():
         pass
-    for name in ('Owner', 'Misc'):
+    for name in ('Owner', 'Config', 'Misc'):
         plugin.loadPluginClass(irc, plugin.loadPluginModule(name))
     conf.supybot.abuse.flood.command.setValue(False)
     conf.supybot.abuse.flood.command.invalid.setValue(False)
@@ -177,6 +187,12 @@ def make_plugins(S, plugins):
                 irc.reply(' '.join(args), **kw)
             elif kind == 'silent':
                 irc.noReply()
+            elif kind == 'twice':          # a command that answers in two messages
+                irc.reply('one')
+                irc.reply('two')
+            elif kind == 'slow':           # a threaded command that takes its time
+                time.sleep(0.3)
+                irc.reply('%s.%s(%s)' % (owner, cname, ','.join(args)))
             elif kind == 'ign':            # what Utilities.ignore does
                 msg.tag('ignored')
                 irc.noReply()
@@ -451,6 +467,10 @@ def oracle(S, inp, toks, ilog, iout, table):
             return ('val', '%s.%s(%s)' % (owner, c, ','.join(args)))
         if k == 'echo':
             return ('val', ' '.join(args))
+        if k == 'slow':
+            return ('val', '%s.%s(%s)' % (owner, c, ','.join(args)))
+        if k == 'twice':
+            return ('val', 'one')
         if k in ('silent', 'ign'):     # an ignore-style sub-command contributes nothing, like any noReply
             return ('val', None)
         if k == 'crash' and not st.get('detailed', False):
@@ -570,7 +590,33 @@ def cls_group_shadow(inp):
     return any(cn(g) in names for p in inp['plugins'] for g, _ in p.get('groups', []))
 
 
-CLASSES = {'many_subcommands_stack': cls_stack, 'subcallback_named_like_plugin': cls_group_shadow}
+def _all_cmds(inp):
+    for p in inp.get('plugins', []):
+        for c, k in p['cmds']:
+            yield c, k
+        for g, gc in p.get('groups', []):
+            for c, k in gc:
+                yield c, k
+
+
+def cls_multi_reply(inp):
+    """a sub-command that replies more than once (the model's commands reply at most once)"""
+    return any(base(k) == 'twice' for c, k in _all_cmds(inp))
+
+
+def cls_importantplugins(inp):
+    """a command whose canonical name is that of the registry entry supybot.commands.defaultPlugins.importantPlugins"""
+    return any(c.lower() == 'importantplugins' for c, k in _all_cmds(inp))
+
+
+def unmodelled(inp):
+    """inputs the Gallina model does not represent: only the direct oracle looks at them"""
+    return cls_multi_reply(inp) or cls_importantplugins(inp) or any(base(k) == 'slow' for c, k in _all_cmds(inp)) \
+        or any(st.get('op') == 'config' for st in inp.get('steps', []))
+
+
+CLASSES = {'many_subcommands_stack': cls_stack, 'subcallback_named_like_plugin': cls_group_shadow,
+           'multi_reply_subcommand': cls_multi_reply, 'command_named_importantplugins': cls_importantplugins}
 
 
 # ------------------------------------------------------------------ histories of disable / enable / calls
@@ -591,6 +637,8 @@ def step_line(st):
         return st['line']
     if st['op'] == 'restart':
         return '<restart>'
+    if st['op'] == 'config':
+        return 'config supybot.commands.disabled ' + ' '.join(st['names'])
     return ' '.join([st['op']] + ([st['plugin']] if st.get('plugin') else []) + [st['cmd']])
 
 
@@ -620,6 +668,13 @@ def run_history(ctx, S, inp, kind, with_model=True):
             wsteps.append([2, toks])
             if any(isinstance(t, list) for t in toks):
                 raise ValueError('history call lines must be flat')
+        elif st['op'] == 'config':
+            # another way to the same list: the owner sets the registry value with the Config plugin
+            ilog, iout = impl_run(S, step_line(st), OWNER)
+            if iout == ['reply', success]:
+                G = {cn(n) for n in st['names'] if '.' not in n}
+                P = {(cn(n.split('.', 1)[0]), cn(n.split('.', 1)[1])) for n in st['names'] if '.' in n}
+            prev = snapshot(S)
         elif st['op'] == 'restart':
             restart_disabled(S)
             prev = snapshot(S)
@@ -652,7 +707,7 @@ def run_history(ctx, S, inp, kind, with_model=True):
                 wsteps.append([0 if st['op'] == 'disable' else 1, wire.opt(plug), cn(st['cmd'])])
     if fail:
         ctx.fail(inp, fail)
-    if not with_model:
+    if not with_model or unmodelled(inp):
         return None
     beh = [[p['name'], '', c, KINDS[base(k)], kflags(k)] for p in inp['plugins'] for c, k in p['cmds']]
     env = [table, [], [], sorted(S['base_important'])]
@@ -700,13 +755,15 @@ def run_case(ctx, S, inp, kind, with_model=True):
     nsub = count_subs(toks) if toks is not None else 0
     ctx.case(kind, inp, nontrivial=nsub > 0 or kind.startswith('dispatch'))
     if toks is None:
+        if [e for e in ilog if e[0] != '!foreign']:
+            ctx.fail(inp, 'the tokenizer rejected the line (SyntaxError) but commands ran: %r' % (ilog,))
         return None
     if not inp['settings'].get('nested', True) and any(isinstance(t, list) for t in toks):
         ctx.fail(inp, 'nesting disabled but the tokenizer produced a bracketed sub-command: %r' % (toks,))
     d = None if foreign else (oracle(S, inp, toks, ilog, iout, table) or dispatch_oracle(S, inp, toks, ilog, iout, table))
     if d:
         ctx.fail(inp, d)
-    if not with_model:
+    if not with_model or unmodelled(inp):
         return None
     # Python-stack oracle: when the implementation silently abandoned a long line, the budget is what it completed
     # in the domain the model runs with exactly the stack the theorem assumes (stack_holds_domain: STACK_SAFE_SUBS + 1
@@ -753,7 +810,7 @@ def finish_cases(ctx, S, recs):
 
 
 # ------------------------------------------------------------------ generators
-PNAMES = ['Al', 'Be', 'Ga', 'De', 'FooBar', 'Ep']
+PNAMES = ['Al', 'Be', 'Ga', 'De', 'Foo_Bar', 'Ep']
 CNAMES = ['a', 'b', 'c', 'e', 'dup', 'al', 'be', 'ga', 'list', 'x1']
 BEHS = ['reply', 'reply', 'reply', 'echo', 'echo', 'silent', 'ign', 'ign', 'mute', 'err', 'crash',
         'reply+action', 'echo+action', 'echo+nolen', 'reply+notice', 'echo+private', 'echo+to', 'reply+private+to', 'echo+notice+action']
@@ -874,6 +931,19 @@ CORPUS = [
 
 # witnesses of the findings (also in findings/C14.json)
 W_STACK = {'plugins': [{'name': 'Al', 'cmds': [['e', 'echo'], ['n', 'reply']]}], 'settings': {}, 'line': 'e ' + ' '.join(['[n]'] * 100)}
+# C14.F25 (known): the second reply of `tw` overwrites the slot of the still running threaded sibling
+W_TWICE = {'plugins': [{'name': 'Al', 'cmds': [['e', 'echo'], ['tw', 'twice']]}, {'name': 'Be', 'threaded': True, 'cmds': [['slow', 'slow']]}],
+           'settings': {}, 'line': 'e [tw] [slow 1] x'}
+# C14.F27 (known): the registry lookup defaultPlugins.get('importantplugins') finds the importantPlugins entry
+W_IMPORTANT = {'plugins': [{'name': 'Al', 'cmds': [['importantplugins', 'reply']]}], 'settings': {}, 'line': 'importantplugins 1'}
+# C14.F26 (fixed): no command of a plugin whose class name contains '_' or '-' could run
+W_UNDERSCORE = [{'plugins': [{'name': 'Foo_Bar', 'cmds': [['ga', 'reply'], ['e', 'echo']]}], 'settings': {}, 'line': l}
+                for l in ('foo_bar ga 1', 'ga 1', 'e [ga] [foo_bar ga 2]')]
+# C14.F28 (fixed): supybot.commands.disabled set through the Config plugin did not reach the table behind isDisabled
+W_CONFIG = {'plugins': [{'name': 'Al', 'cmds': [['a', 'reply'], ['dup', 'reply']]}, {'name': 'Be', 'cmds': [['a', 'reply'], ['b', 'echo']]}],
+            'steps': [{'op': 'config', 'names': ['a', 'Be.b']}, {'op': 'call', 'line': 'a 1'}, {'op': 'call', 'line': 'al a 2'}, {'op': 'call', 'line': 'b 3'},
+                      {'op': 'call', 'line': 'dup'}, {'op': 'config', 'names': ['dup']}, {'op': 'call', 'line': 'a 4'}, {'op': 'call', 'line': 'dup 5'},
+                      {'op': 'restart'}, {'op': 'call', 'line': 'dup 6'}]}
 W_GROUP = {'plugins': [{'name': 'Al', 'cmds': [['a', 'reply']]}, {'name': 'Ga', 'cmds': [['g', 'reply']], 'groups': [['al', [['a', 'reply']]]]}],
            'settings': {}, 'line': 'al a 1'}
 
@@ -1003,6 +1073,11 @@ def run(ctx):
             recs.append(run_case(ctx, S, dict(base, line=line), 'corpus'))
     recs.append(run_case(ctx, S, W_STACK, 'stack-witness'))
     recs.append(run_case(ctx, S, W_GROUP, 'dispatch-group-witness'))
+    for w in W_UNDERSCORE:
+        recs.append(run_case(ctx, S, w, 'corpus'))
+    recs.append(run_case(ctx, S, W_TWICE, 'multi-reply-witness'))
+    recs.append(run_case(ctx, S, W_IMPORTANT, 'importantplugins-witness'))
+    recs.append(run_history(ctx, S, W_CONFIG, 'history-corpus'))
     # the boundary of the domain: STACK_SAFE_SUBS sub-commands in the shapes with the most frames per sub-command;
     # the model (budget STACK_SAFE_SUBS + 1) completes them, so must the bot: this re-measures stack_holds_domain
     N = _stack_safe()
